@@ -3,7 +3,6 @@ package main
 import (
 	"fmt"
 	"math/big"
-	"os"
 
 	astits "github.com/asticode/go-astits"
 )
@@ -22,13 +21,11 @@ type c12 struct{}
 
 func init() { props["C12"] = c12{} }
 
-// Two deviations from ISO 13818-1 were found while building this check (see the C12 report):
-// tag 1 "K-pack": pack_header() bytes behind pack_field_length are not skipped, tag 2 "K-sid": stream ids
-// 0xBC 0xF0 0xF1 0xF2 0xF8 0xFF are given an optional header although Table 2-21 has none for them.
-// Their cases are generated and compared with the model on every run; the oracle counts them and reports
-// them as violations only with VERIF_C12_STRICT=1, until the lead records or repairs them.
-var c12Strict = os.Getenv("VERIF_C12_STRICT") == "1"
-var c12Deviations = map[int64]int{}
+// Two deviations from ISO 13818-1 were found while building this check:
+// tag 1 "K-pack": pack_header() bytes behind pack_field_length were not skipped (repaired in /repo, d723a9d);
+// tag 2 "K-sid": stream ids 0xBC 0xF0 0xF1 0xF2 0xF8 0xFF are given an optional header although Table 2-21
+// has none for them (known finding K4: a test of the suite pins the behaviour). The oracle judges both; the
+// violation text of a tagged case starts with the tag so that known_findings.json can match it.
 var c12TagName = map[int64]string{1: "K-pack", 2: "K-sid"}
 
 func (c12) Num() int { return 12 }
@@ -370,7 +367,7 @@ func c12GenOpt(r *Rng, b0, b1, ext byte) (*astits.PESOptionalHeader, []byte) {
 		}
 		if ext&0x08 != 0 {
 			o.HasPackHeaderField = true
-			// pack_field_length 0: the only value the library's reading of this part agrees with (see report)
+			// pack_field_length 0 here; the "pack-header" stream carries real pack headers
 		}
 		if ext&0x04 != 0 {
 			o.HasProgramPacketSequenceCounter = true
@@ -509,10 +506,8 @@ func (c12) Gen(r *Rng, tier string, emit func(string, Tok)) {
 				emit("sid-parse", c12ParseCase(r, s, o, nil, r.Intn(3), payloadOf(r.Range(0, 20)), lmode))
 			}
 		} else {
-			// Table 2-21 gives these ids no optional header; the library parses one (tag 2)
-			for lmode := 0; lmode <= 1; lmode++ {
-				emit("sid-parse-iso-noopt", c12Tagged(c12ParseCase(r, s, nil, nil, 0, payloadOf(r.Range(3, 20)), lmode), 2))
-			}
+			// Table 2-21 gives these ids no optional header; the library parses one (tag 2, known finding K4)
+			emit("sid-parse-iso-noopt", c12Tagged(c12ParseCase(r, s, nil, nil, 0, payloadOf(r.Range(3, 20)), sid&1), 2))
 			emit("sid-parse-iso-noopt", c12DropExpect(c12ParseCase(r, s, o, nil, 0, payloadOf(r.Range(0, 20)), 1)))
 		}
 		h := &astits.PESHeader{StreamID: s, OptionalHeader: o}
@@ -837,9 +832,6 @@ func (c12) Gen(r *Rng, tier string, emit func(string, Tok)) {
 		}
 		emit("random", L(I(1), B(bs)))
 	}
-	for tag, n := range c12Deviations {
-		note("%s: %d generated cases deviate from the ISO 13818-1 reference (judged only with VERIF_C12_STRICT=1)", c12TagName[tag], n)
-	}
 }
 
 // c12Tagged marks a parse case as belonging to a recorded deviation.
@@ -1029,10 +1021,6 @@ func (c12) Oracle(c Tok, obs Tok) string {
 			tag := c.At(3).Int()
 			w := c12{}.Oracle(L(c.At(0), c.At(1), c.At(2)), obs)
 			if w == "" {
-				return ""
-			}
-			c12Deviations[tag]++
-			if !c12Strict {
 				return ""
 			}
 			return c12TagName[tag] + ": " + w
